@@ -284,6 +284,11 @@ CONFIGS = {
     "sandbox": {"_class": "sandbox"},
     "ext_async_trim": dict(extensions=["jinja2.ext.i18n", "jinja2.ext.loopcontrols"], enable_async=True, trim_blocks=True,
                            line_statement_prefix="%"),
+    # delimiters made of regex metacharacters; delimiters that are prefixes of one another
+    "regexy": dict(block_start_string="(*", block_end_string="*)", variable_start_string="[[", variable_end_string="]]",
+                   comment_start_string="(?", comment_end_string="?)", line_statement_prefix="\\", line_comment_prefix="^^"),
+    "prefix": dict(block_start_string="<", block_end_string=">", variable_start_string="<<", variable_end_string=">>",
+                   comment_start_string="<<<", comment_end_string=">>>", trim_blocks=True),
     # templates loaded under a name (as every loader does): the name is embedded in the generated module
     "named": {"_named": True},
 }
@@ -299,6 +304,8 @@ FRAGS = {
     "ext": ["{%", "%}", "{{", "}}", "trans", "endtrans", "pluralize", "do ", "break", "a", " ", "%", "debug"],
     "sandbox": ["{{", "}}", "a", ".", "__class__", "(", ")", "[", "]", "\"", "|", "attr"],
     "ext_async_trim": ["{%", "%}", "trans", "endtrans", "pluralize", "a", " "],
+    "regexy": ["(*", "*)", "[[", "]]", "(?", "?)", "\\", "^^", "\n", "a", " ", "if a", "-"],
+    "prefix": ["<", ">", "<<", ">>", "<<<", ">>>", "-", "\n", "a", " ", "raw", "endraw"],
     "named": ["{{", "}}", "{%", "%}", " 1 if a ", "from 'x' import a", "include ", "extends ", "a", " ", "(", "'x'"],
 }
 
@@ -689,7 +696,7 @@ def oracle(ctx):
             continue
         seen.add((cfgname, src))
     ctx.evaluations += len(work)
-    starts = ("{{", "{%", "{#", "<%", "<!--", "$%", "${", "$#", "#")
+    starts = ("{{", "{%", "{#", "<%", "<!--", "$%", "${", "$#", "#", "(*", "[[", "(?", "<")
     ctx.nontrivial.update(("o", c, s) for c, s in seen if any(x in s for x in starts))
     ctx.samples.append({"config": "ext", "source": PROBES[8][1], "outcome": "TemplateSyntaxError (line 1)"})
     ctx.extra["oracle_wall_s"] = round(time.time() - t0, 1)
